@@ -4,5 +4,6 @@ package checks
 import (
 	_ "verif/harness/internal/c07"
 	_ "verif/harness/internal/c13"
+	_ "verif/harness/internal/c14"
 	_ "verif/harness/internal/c19"
 )
